@@ -210,9 +210,14 @@ def run_main(k, m, failed):
         def exists(self):
             return str(self) in w.fs
     binds.append((MC, 'Path', PathStub))
+    err = None
     with shim.shadow(*binds):
-        MC.main(command_line_args=['/x/GEOPHIRESv3.py', '/w/base_input.txt', '/w/settings.txt', '/w/MC_Result.txt'])
-    return outputs, vals, w.fs['/w/MC_Result.txt'], captured.get('json')
+        try:
+            MC.main(command_line_args=['/x/GEOPHIRESv3.py', '/w/base_input.txt', '/w/settings.txt', '/w/MC_Result.txt'])
+        except RuntimeError as e:       # main() gives up (e.g. 'No MC results generated'): a behaviour of the summariser, judged below
+            err = e
+    captured['error'] = err
+    return outputs, vals, w.fs['/w/MC_Result.txt'], (captured.get('json') if err is None else {'__error__': repr(err)[:160]})
 
 
 def run_unit(unit):
@@ -223,7 +228,16 @@ def run_unit(unit):
 
     def concrete(inp):
         rows = [[float(inp.get(f'y[{r}][{j}]', 0.0)) for j in range(m)] for r in range(k)]
-        return replay_stats(rows, failed)
+        v, d = replay_stats(rows, failed)
+        if v:
+            return v, d
+        # the same check on rows whose figures print short ('1.5') and on rows whose figures print long: how a row is read back must
+        # not depend on how many characters its figures take
+        for rows2 in ([[0.5 + r + 2 * j for j in range(m)] for r in range(k)], [[1234567.125 * (r + 1) + j for j in range(m)] for r in range(k)]):
+            v, d = replay_stats(rows2, failed)
+            if v:
+                return v, d
+        return False, d
     n = 0
     for pr in core.explore(lambda: run_main(k, m, failed), max_paths=2000):
         log.path(pr)
@@ -236,6 +250,10 @@ def run_unit(unit):
             harness.reachable(log, pr.ctx, 2000)
         c = pr.ctx
         outputs, vals, text, js = pr.value
+        failed_main = isinstance(js, dict) and '__error__' in js
+        harness.discharge(log, c, 'main() summarises the rows that exist (it does not give up or lose rows while reading them back)', not failed_main, zv, concrete)
+        if failed_main:
+            continue
         lines = text.splitlines()
         for j, o in enumerate(outputs):
             ref = ref_stats([vals[r][j] for r in range(k)])
@@ -326,7 +344,7 @@ def replay_stats(rows, failed):
                 got = js.get(o, {}).get(label)
                 if got is None or abs(float(got) - float(w[j])) > 1e-6 * max(1.0, abs(float(w[j]))):
                     bad.append((o, label, got, float(w[j])))
-        return bool(bad), {'rows': rows, 'failed_iterations': failed, 'mismatches (output, statistic, reported, recomputed)': bad[:6], 'error': err}
+        return bool(bad) or err is not None, {'rows': rows, 'failed_iterations': failed, 'mismatches (output, statistic, reported, recomputed)': bad[:6], 'error': err}
     finally:
         os.chdir(cwd)
         sys.argv = argv
